@@ -30,6 +30,9 @@ mod sealed {
     pub(super) allocated: u32,
     pub(super) min_segment_size: u32,
     pub(super) discarded: u32,
+    /// explicit tail padding, always zero: the header is written into the ARENA (and into files)
+    /// by value, and implicit padding would carry whatever was on the stack
+    _padding: u32,
   }
 
   impl super::super::sealed::Header for Header {
@@ -40,6 +43,7 @@ mod sealed {
         sentinel: SegmentNode::sentinel(),
         min_segment_size,
         discarded: 0,
+        _padding: 0,
       }
     }
 
